@@ -178,7 +178,15 @@ class ScriptedPlayer:
         self.reader = LineReader(self.sock)
         if self.pre_connect is not None:
             self.pre_connect()
-        self.sock.connect(self.addr)
+        try:
+            self.sock.connect(self.addr)
+        except OSError:
+            # the table manager has gone (session over): nothing to evaluate for this request
+            self.verdict = 'refused'
+            if self.post_connect is not None:
+                self.post_connect()
+            self._verdict()
+            raise _Stop()
         if self.post_connect is not None:
             self.post_connect()
         # the whole request may be case-mangled except the quoted team name
